@@ -71,6 +71,70 @@ type Frame struct {
 	parent  *Frame
 	panicReach []string
 	splitReturn map[*ssa.BasicBlock]bool
+	ptrs    []knownPtr
+}
+
+type knownPtr struct {
+	c []string
+	t types.Type // pointee type
+}
+
+// typeContains: an object of type a may contain an object of type b (as a field or element, transitively)
+func typeContains(a, b types.Type, depth int) bool {
+	if types.Identical(a, b) {
+		return true
+	}
+	if depth > 6 {
+		return true
+	}
+	switch t := types.Unalias(a).Underlying().(type) {
+	case *types.Struct:
+		for i := 0; i < t.NumFields(); i++ {
+			if typeContains(t.Field(i).Type(), b, depth+1) {
+				return true
+			}
+		}
+	case *types.Array:
+		return typeContains(t.Elem(), b, depth+1)
+	}
+	return false
+}
+
+// notePointer: Go objects of types that cannot contain one another never overlap; two objects of the same
+// type are identical or disjoint. Recorded as facts between the pointers a function gets hold of.
+func (fr *Frame) notePointer(reach string, c []string, ptrT types.Type) {
+	pt, ok := types.Unalias(ptrT).Underlying().(*types.Pointer)
+	if !ok || len(c) != 2 {
+		return
+	}
+	et := pt.Elem()
+	if _, isStruct := et.Underlying().(*types.Struct); !isStruct {
+		return
+	}
+	if _, isTP := types.Unalias(et).(*types.TypeParam); isTP {
+		return
+	}
+	sz := fr.l().sizeOf(et)
+	if sz == 0 {
+		return
+	}
+	n := 0
+	for i := len(fr.ptrs) - 1; i >= 0 && n < 16; i-- {
+		q := fr.ptrs[i]
+		if q.c[0] == c[0] && q.c[1] == c[1] {
+			continue
+		}
+		n++
+		qs := fr.l().sizeOf(q.t)
+		disjoint := sOr(sNot(sEq(c[0], q.c[0])), app("<=", app("+", c[1], sInt(int64(sz))), q.c[1]), app("<=", app("+", q.c[1], sInt(int64(qs))), c[1]))
+		switch {
+		case types.Identical(et, q.t):
+			fr.vc.assert(sImp(reach, sOr(sAnd(sEq(c[0], q.c[0]), sEq(c[1], q.c[1])), disjoint)))
+		case !typeContains(et, q.t, 0) && !typeContains(q.t, et, 0):
+			fr.vc.assert(sImp(reach, sOr(sEq(c[0], "0"), sEq(q.c[0], "0"), disjoint)))
+		}
+	}
+	fr.ptrs = append(fr.ptrs, knownPtr{c: c, t: et})
 }
 
 func (fr *Frame) l() *Layouter { return fr.eng.lay }
